@@ -45,6 +45,11 @@ Setups ==
     [driver |-> "GrandCanonical", ctx |-> "exch", tmplLen |-> 1, fixcom |-> FALSE,
      mobj |-> [m1 |-> Mobj("exch", NoLab, FALSE), m2 |-> Mobj("disp", NoLab, FALSE)],
      moves |-> [a |-> Entry("plain", <<"m1", "m2">>, FALSE), b |-> Entry("plain", <<"m2", "m1">>, FALSE)]],
+    \* grand canonical: ONE trial in which two exchange moves act one after the other (a plain composite of two distinct
+    \* objects with their own label arrays): the second deletion addresses the atoms that are left
+    [driver |-> "GrandCanonical", ctx |-> "exch", tmplLen |-> 1, fixcom |-> FALSE,
+     mobj |-> [m1 |-> Mobj("exch", NoLab, FALSE), m2 |-> Mobj("exch", NoLab, FALSE)],
+     moves |-> [a |-> Entry("plain", <<"m1", "m2">>, FALSE)]],
     \* isobaric: cell move (scaling), displacement, plain composite cell + displacement
     [driver |-> "Isobaric", ctx |-> "deform", tmplLen |-> 0, fixcom |-> FALSE,
      mobj |-> [m1 |-> Mobj("disp", NoLab, FALSE), m2 |-> Mobj("cell", NoLab, TRUE)],
